@@ -298,6 +298,20 @@ class Program:
 # small AST helpers shared by rules
 # ---------------------------------------------------------------------------
 
+def visible_nodes(prog: "Program", fi: "FunctionInfo"):
+    """the nodes of a function plus those of the module-level constants it refers to by name (a table hoisted out of the
+    function is still the function's table)"""
+    mod_consts = prog.modules[fi.module].constants
+    local_stores = {x.id for x in ast.walk(fi.node) if isinstance(x, ast.Name) and isinstance(x.ctx, ast.Store)} | set(fi.params())
+    out = list(ast.walk(fi.node))
+    seen = set()
+    for x in list(out):
+        if isinstance(x, ast.Name) and isinstance(x.ctx, ast.Load) and x.id in mod_consts and x.id not in local_stores and x.id not in seen:
+            seen.add(x.id)
+            out.extend(ast.walk(mod_consts[x.id]))
+    return out
+
+
 def src_line(node: ast.AST):
     """line of the node in the source file (nodes moved by the load-time inliner are renumbered for ordering; see inline.renumber)"""
     return getattr(node, "src_lineno", getattr(node, "lineno", "?"))
